@@ -725,4 +725,61 @@ theorem saturation_accurate (p : Mat32.V3) (hp : Unit3 p) (hL : 1 / 100 ≤ spec
   · have := min_le_left (toReal (F32.div num den)) 1
     linarith
 
+/-- refined hue quotient: `(a - b) / c` is within 3e-7 of the real `(A - B) / (max - min)` -/
+theorem hue_term_acc (a b c : Nat) (wb : WF b) (fa : Finite a) (fb : Finite b) (fc : Finite c) (Mx Mn : ℝ)
+    (ha : Mn ≤ toReal a ∧ toReal a ≤ Mx) (hb : Mn ≤ toReal b ∧ toReal b ≤ Mx) (hC : 1 / 16777216 ≤ Mx - Mn) (hMx : Mx - Mn ≤ 1)
+    (hc : |toReal c - (Mx - Mn)| ≤ 6 / 100000000 * (Mx - Mn) + 1 / 10 ^ 40) :
+    |toReal (F32.div (F32.sub a b) c) - (toReal a - toReal b) / (Mx - Mn)| ≤ 3 / 10000000 := by
+  have hab : |toReal a - toReal b| ≤ Mx - Mn := by rw [abs_le]; constructor <;> linarith [ha.1, ha.2, hb.1, hb.2]
+  obtain ⟨fn, en⟩ := sub_val a b wb fa fb (fit1 _ (by linarith))
+  have hu := u_val; have he := eta_le; have he0 := eta_pos
+  have h1 : u * |toReal a - toReal b| ≤ u * (Mx - Mn) := mul_le_mul_of_nonneg_left hab u_pos.le
+  rw [hu] at h1 en
+  set N := toReal (F32.sub a b)
+  set cc := toReal c
+  set Cr := Mx - Mn
+  set Dab := toReal a - toReal b
+  have hCpos : 0 < Cr := by linarith
+  have hN : |N| ≤ Cr * (1 + 6 / 100000000) + 1 / 10 ^ 40 := by
+    have := abs_sub_abs_le_abs_sub N Dab; linarith
+  obtain ⟨c1, c2⟩ := abs_le.mp hc
+  have hcpos : 0 < cc := by nlinarith
+  have hcc : Cr * (1 - 7 / 100000000) ≤ cc := by nlinarith
+  have hq : |N / cc| ≤ 1 + 2 / 10000000 := by
+    rw [abs_div, abs_of_pos hcpos, div_le_iff₀ hcpos]
+    nlinarith
+  have hqfit : |N / cc| ≤ (2:ℝ) ^ (126:ℤ) := by
+    have : (2:ℝ) ^ (1:ℤ) ≤ (2:ℝ) ^ (126:ℤ) := zpow_le_zpow_right₀ (by norm_num) (by norm_num)
+    refine le_trans hq (le_trans (by norm_num) this)
+  obtain ⟨fd, ed⟩ := div_val (F32.sub a b) c fn fc hcpos.ne' hqfit
+  have hud : ud ≤ 61 / 1000000000 := by unfold ud; rw [hu]; norm_num
+  have hud0 := ud_pos
+  have h2 : ud * |N / cc| ≤ 61 / 1000000000 * (1 + 2 / 10000000) := mul_le_mul hud hq (abs_nonneg _) (by norm_num)
+  -- N/cc vs Dab/Cr
+  have hr : |N / cc - Dab / Cr| ≤ 2 / 10000000 := by
+    have e : N / cc - Dab / Cr = ((N - Dab) * Cr - Dab * (cc - Cr)) / (cc * Cr) := by field_simp; ring
+    rw [e, abs_div, abs_of_pos (mul_pos hcpos hCpos), div_le_iff₀ (mul_pos hcpos hCpos)]
+    have t1 := abs_sub ((N - Dab) * Cr) (Dab * (cc - Cr))
+    have t2 : |(N - Dab) * Cr| ≤ (1 / 16777216 * Cr + 1 / 10 ^ 40) * Cr := by
+      rw [abs_mul, abs_of_pos hCpos]; exact mul_le_mul_of_nonneg_right (by linarith) hCpos.le
+    have t3 : |Dab * (cc - Cr)| ≤ Cr * (6 / 100000000 * Cr + 1 / 10 ^ 40) := by
+      rw [abs_mul]; exact mul_le_mul hab hc (abs_nonneg _) hCpos.le
+    have hCC : 1 / 16777216 * Cr ≤ Cr * Cr := by nlinarith
+    nlinarith
+  have t := abs_sub_le (toReal (F32.div (F32.sub a b) c)) (N / cc) (Dab / Cr)
+  linarith
+
+/-- closeness on the hue circle -/
+def Circ (a b ε : ℝ) : Prop := ∃ k : ℤ, |a - b - 360 * (k:ℝ)| ≤ ε
+
+theorem circ_of_abs (a b ε : ℝ) (h : |a - b| ≤ ε) : Circ a b ε := ⟨0, by simpa using h⟩
+
+theorem circ_trans (a b c ε1 ε2 : ℝ) (h1 : Circ a b ε1) (h2 : Circ b c ε2) : Circ a c (ε1 + ε2) := by
+  obtain ⟨k1, e1⟩ := h1; obtain ⟨k2, e2⟩ := h2
+  refine ⟨k1 + k2, ?_⟩
+  have e : a - c - 360 * ((k1 + k2 : ℤ) : ℝ) = (a - b - 360 * (k1:ℝ)) + (b - c - 360 * (k2:ℝ)) := by push_cast; ring
+  rw [e]; exact le_trans (abs_add_le _ _) (add_le_add e1 e2)
+
+theorem circ_shift (a b ε : ℝ) (k : ℤ) (h : |a - b - 360 * (k:ℝ)| ≤ ε) : Circ a b ε := ⟨k, h⟩
+
 end C17
